@@ -106,3 +106,36 @@ def valid_doc_conformance(c, d, res):
         res.violate("conformance.size", {"schema": c.id, "doc": d}, node.content.size)
     res.validated += 1
     return node
+
+
+# ---------------------------------------------------------------------------
+# isolation between Schema instances (schemas.pair_specs)
+
+def pairseq_units(prop, size, donor_size, **kw):
+    """One unit per creation order.  Each runs the property's ordinary unit body on the first-created member of the
+    pair, then on the second, then on the first again, IN ONE PROCESS: operations on one Schema instance must not
+    influence what the same operations (same JSON) do under the other instance."""
+    out = []
+    for tag in ("1", "2"):
+        out.append({"kind": "pairseq", "tag": tag, "family": "pair", "size": size, "donor": ("pair", donor_size),
+                    "name": f"pairseq/{tag}", **kw})
+    return out
+
+
+def run_pairseq(u, run_unit, prop):
+    from ..universe import schemas
+
+    order = schemas.PAIR_ORDERS[u["tag"]]
+    subs = []
+    for i, k in enumerate((order[0], order[1], order[0])):
+        sub = {kk: v for kk, v in u.items() if kk not in ("kind", "tag")}
+        sub.update({"sid": f"pair{k}{u['tag']}", "block": 0, "nblocks": 1, "name": f"{u['name']}/{i}:{k}"})
+        if u.get("subkind"):
+            sub["kind"] = u["subkind"]
+        subs.append(sub)
+    results = [run_unit(sub) for sub in subs]
+    m = engine.merge(subs, results, 0)
+    m.prop_id = prop
+    m.notes = {}
+    m.evaluations = sum(r.evaluations for r in results)
+    return m
